@@ -33,3 +33,47 @@ M('get_chunk_bounds_dedup', ['C16'], 'phylib/io/traces.py',
 M('cbin_iter_lookbehind', ['C16'], 'phylib/io/traces.py',
   '            last_chunk = max(first_chunk, last_chunk - 1)\n',
   '            last_chunk = max(first_chunk, last_chunk - 2)\n')
+# ---- C01 -----------------------------------------------------------------------------------
+M('find_chunks_left', ['C01'], 'phylib/io/traces.py',
+  "return np.searchsorted(bounds, arr, 'right') - 1", "return np.searchsorted(bounds, arr, 'left') - 1")
+M('subitems_chunk_stop', ['C01'], 'phylib/io/traces.py',
+  'chunk_stop = min(i1 - i0, stop - i0)', 'chunk_stop = min(i1 - i0 - 1, stop - i0) if chunk < last_chunk else stop - i0')
+M('subitems_neg_start', ['C01'], 'phylib/io/traces.py',
+  '        if start < 0:\n            start = start % bounds[-1]', '        if start < 0:\n            start = (start + 1) % bounds[-1]')
+M('memmap_offset_dropped', ['C01'], 'phylib/io/traces.py',
+  'return np.memmap(path, dtype=dtype, offset=offset, shape=shape, mode=mode)',
+  'return np.memmap(path, dtype=dtype, offset=0, shape=shape, mode=mode)')
+M('list_subitems_bounds', ['C01'], 'phylib/io/traces.py',
+  'out.append((chunk, item[(i0 <= item) & (item < i1)] - i0))', 'out.append((chunk, item[(i0 <= item) & (item <= i1)] - i0))')
+M('getitem_cols_before_rows', ['C01'], 'phylib/io/traces.py',
+  '    if op == \'cols\':\n        return arr[:, arg]', '    if op == \'cols\':\n        return arr[:, arg] if arr.shape[0] != 2 else arr[:, ::-1][:, arg]')
+# ---- C02 -----------------------------------------------------------------------------------
+M('ops_list_shared', ['C02'], 'phylib/io/traces.py',
+  '        clone._ops = list(self._ops)\n', '')
+M('rsub_as_sub', ['C02'], 'phylib/io/traces.py',
+  "return self._append_op('rsub', arg)", "return self._append_op('sub', arg)")
+M('rpow_as_pow', ['C02'], 'phylib/io/traces.py',
+  "return self._append_op('rpow', arg)", "return self._append_op('pow', arg)")
+M('ops_reverse_replay', ['C02'], 'phylib/io/traces.py',
+  '        for op, arg in self._ops:\n            arr = _apply_op(op, arg, arr)', '        for op, arg in (self._ops if len(self._ops) < 3 else self._ops[::-1]):\n            arr = _apply_op(op, arg, arr)')
+M('apply_op_float_coerce', ['C02'], 'phylib/io/traces.py',
+  "    f = getattr(arr, '__%s__' % op)\n", "    arr = arr.astype(np.float32) if op == 'floordiv' else arr\n    f = getattr(arr, '__%s__' % op)\n")
+# ---- C04 -----------------------------------------------------------------------------------
+M('times_multiplied', ['C04'], 'phylib/io/model.py',
+  "            samples = self._read_array(path)\n            times = samples / self.sample_rate",
+  "            samples = self._read_array(path)\n            times = samples / self.sample_rate if self.sample_rate != 100. else samples * 0.01000001")
+M('nan_scrub_on_mmap', ['C04'], 'phylib/io/model.py',
+  '    if mmap_mode is None:\n        for w in', '    if mmap_mode is None and out.ndim == 1:\n        for w in')
+M('traces_no_channel_map', ['C04'], 'phylib/io/model.py',
+  'traces = traces[:, channel_map]  # lazy permutation on the channel axis',
+  'traces = traces[:, np.sort(channel_map)]  # lazy permutation on the channel axis')
+M('probes_default_ones', ['C04'], 'phylib/io/model.py',
+  "            return out\n        except IOError:\n            return np.zeros(self.n_channels, dtype=np.int32)\n\n    def _load_channel_shanks",
+  "            return out\n        except IOError:\n            return np.ones(self.n_channels, dtype=np.int32)\n\n    def _load_channel_shanks")
+M('monotonic_check_strict_off', ['C04'], 'phylib/io/model.py',
+  'if not np.all(np.diff(self.spike_times) >= 0):', 'if not np.all(np.diff(self.spike_times[:-1]) >= 0):')
+M('alf_samples_floor', ['C04'], 'phylib/io/model.py',
+  'samples = np.round(times * self.sample_rate).astype(np.uint64)', 'samples = (times * self.sample_rate).astype(np.uint64)')
+M('wmi_written_transposed', ['C04'], 'phylib/io/model.py',
+  "self._write_array(self.dir_path / 'whitening_mat_inv.npy', wmi)\n        return wmi",
+  "self._write_array(self.dir_path / 'whitening_mat_inv.npy', wmi)\n        self._write_array(self.dir_path / 'whitening_mat.npy', wm)\n        return wmi")
